@@ -14,10 +14,15 @@
 //!
 //! Op grammar (one scheduling action per line):
 //!   case <name>
-//!   req <r> <io|ooo> <P>   declare request r (r = 0,1,2 in order) with stream mode and view program P
-//!   start <r>              build_response + poll its future once (runs the component bodies, yields the stream)
+//!   req <r> <io|ooo|async> <P>  declare request r (r = 0,1,2 in order) with its rendering mode (in-order / out-of-order
+//!                          streaming, or async: the whole app is awaited before the hydration chunks are requested) and
+//!                          view program P
+//!   start <r>              the REAL `ExtendResponse::from_app` (-> real `build_response`; bin c20g: reproduced): poll the
+//!                          response future once, outside `Sandboxed` (runs `Owner::new_root`, the component bodies, the
+//!                          stream builder); it stays pending until deferred resources and the first chunk are there
 //!   fire <r> <g>           complete gate g of request r
-//!   ps <r>                 everything r can do alone with the gates fired so far: poll r's ready tasks until none is
+//!   ps <r>                 everything r can do alone with the gates fired so far: the handler side polls its own futures
+//!                          (`K`) and the response future, outside `Sandboxed`; poll r's ready tasks until none is
 //!                          ready, poll r's stream until it ends or returns Pending 8 times in a row; repeat to a fixpoint
 //!   poll <i>               poll the (i mod len)-th entry of the executor's ready list (a task of ANY request)
 //!   drop <r>               fire r's remaining gates, `ps r` (the stream ends with `owner.unset()`, as in `from_app`),
@@ -34,7 +39,8 @@
 //!   T<g>.<id> spawn_local_scoped task (awaits g, reports) | D<g>.<id> Action::new + dispatch (its future awaits g, reports) |
 //!   I<id> Effect::new_isomorphic reporting | X<v>.<g>.<id> step of a user stream behind the app stream inside the body's
 //!   `Sandboxed` (reads/allocates arena items when g is fired; v=0 without an owner, v=1 under `Owner::with`) |
-//!   Y<v>.<g>.<id> the same body as a `reactive_graph::spawn` task | Z<kind*10+trigger>.<g1>.<t>.<g2>.<sync>.<async>.<after>.<read>
+//!   Y<v>.<g>.<id> the same body as a `reactive_graph::spawn` task | K<v>.<g>.<ctx>.<arena> a future the handler side polls
+//!   itself outside `Sandboxed` (v=0 a `ScopedFuture`, v=1 re-entering its owner with `Owner::with`) | Z<kind*10+trigger>.<g1>.<t>.<g2>.<sync>.<async>.<after>.<read>
 //!   a Resource/ArcResource/AsyncDerived/ArcAsyncDerived whose fetcher RE-RUNS (source set in the same render, set after t,
 //!   refetch() after t), reporting in its sync part, async part and after its await | A<g>.<id> RwSignal + StoredValue allocated in the current (child) owner and
 //!   read after awaiting g (prints v<whose signal>/<whose stored value>) |
@@ -103,6 +109,11 @@ enum P {
     /// (variant, gate, leaf): the same body as a task given to `reactive_graph::spawn` (entry point
     /// `Future::poll` of `Sandboxed`): allocates on its first poll, awaits the gate, reads
     Y(u32, u32, u32),
+    /// (variant, gate, context leaf, arena leaf): a future the HANDLER SIDE polls itself, outside any `Sandboxed`, typically while the
+    /// request's root is still the thread's current owner: awaits the gate, reads context + arena handles;
+    /// variant 0 = `ScopedFuture::new` under the current owner, 1 = a bare future that re-enters the owner it
+    /// was created under with `Owner::with`
+    K(u32, u32, u32, u32),
     /// (kind*10+trigger, g1, t, g2, sync leaf, async leaf, after-await leaf, read leaf): a resource whose fetcher
     /// RE-RUNS: kind 0 Resource, 1 ArcResource (manual dependencies), 2 AsyncDerived, 3 ArcAsyncDerived (tracked);
     /// trigger 0 = the source changes in the same synchronous render (before the task's first poll), 1 = a scoped
@@ -211,7 +222,7 @@ impl<'a> Parser<'a> {
                     _ => P::A(g, a),
                 }
             }
-            b'X' | b'Y' => {
+            b'X' | b'Y' | b'K' => {
                 let v = self.num()?;
                 if v > 1 {
                     return None;
@@ -220,10 +231,13 @@ impl<'a> Parser<'a> {
                 let g = self.num()?;
                 self.eat(b'.')?;
                 let a = self.num()?;
-                if c == b'X' {
-                    P::X(v, g, a)
-                } else {
-                    P::Y(v, g, a)
+                match c {
+                    b'X' => P::X(v, g, a),
+                    b'Y' => P::Y(v, g, a),
+                    _ => {
+                        self.eat(b'.')?;
+                        P::K(v, g, a, self.num()?)
+                    }
                 }
             }
             b'Z' => {
@@ -286,6 +300,7 @@ fn show_prog(p: &P) -> String {
         P::A(g, a) => format!("A{g}.{a}"),
         P::X(v, g, a) => format!("X{v}.{g}.{a}"),
         P::Y(v, g, a) => format!("Y{v}.{g}.{a}"),
+        P::K(v, g, a, b) => format!("K{v}.{g}.{a}.{b}"),
         P::Z(kv, g1, t, g2, a, b, c, d) => format!("Z{kv}.{g1}.{t}.{g2}.{a}.{b}.{c}.{d}"),
         P::F(n, a) => format!("F{n}.{a}"),
         P::Q(v) => format!("Q({})", v.iter().map(show_prog).collect::<Vec<_>>().join(",")),
@@ -298,7 +313,7 @@ fn gates_of(p: &P, out: &mut Vec<u32>) {
             out.push(*g);
             gates_of(c, out)
         }
-        P::R(g, _, _) | P::O(_, g, _, _) | P::T(g, _) | P::D(g, _) | P::A(g, _) | P::X(_, g, _) | P::Y(_, g, _) => {
+        P::R(g, _, _) | P::O(_, g, _, _) | P::T(g, _) | P::D(g, _) | P::A(g, _) | P::X(_, g, _) | P::Y(_, g, _) | P::K(_, g, _, _) => {
             out.push(*g)
         }
         P::Z(_, g1, t, g2, ..) => out.extend([*g1, *t, *g2]),
@@ -337,6 +352,8 @@ struct Env {
     gates: Arc<Mutex<HashMap<u32, oneshot::Receiver<()>>>>,
     /// steps of the user stream chained behind the app stream (`X` nodes register here)
     tail: Arc<Mutex<std::collections::VecDeque<TailStep>>>,
+    /// futures polled by the handler side itself, outside `Sandboxed` (`K` nodes register here)
+    side: Arc<Mutex<Vec<Pin<Box<dyn Future<Output = ()> + Send>>>>>,
 }
 
 struct TailStep {
@@ -632,6 +649,41 @@ fn build(p: &P, env: &Env) -> AnyView {
             })
             .into_any()
         }
+        P::K(v, g, id, id2) => {
+            let (envk, v, g, id, id2) = (env.clone(), *v, *g, *id, *id2);
+            let (dtx, drx) = oneshot::channel::<()>();
+            let h = StoredValue::new(300 + envk.me);
+            let owner = Owner::current().expect("owner");
+            let body = {
+                let owner = owner.clone();
+                async move {
+                    if let Some(rx) = take_gate(&envk, g) {
+                        let _ = rx.await;
+                    }
+                    let look = || {
+                        report(&envk, id, true);
+                        touch_arena(&envk, id2, h, true);
+                    };
+                    if v == 1 {
+                        owner.with(look)
+                    } else {
+                        look()
+                    }
+                    let _ = dtx.send(());
+                }
+            };
+            let fut: Pin<Box<dyn Future<Output = ()> + Send>> = if v == 0 {
+                Box::pin(leptos::reactive::computed::ScopedFuture::new(body))
+            } else {
+                Box::pin(body)
+            };
+            env.side.lock().unwrap().push(fut);
+            Suspend::new(async move {
+                let _ = drx.await;
+                ""
+            })
+            .into_any()
+        }
         P::Z(kv, g1, t, g2, ls, la, lb, lread) => {
             let (kind, trig) = (kv / 10, kv % 10);
             let (g1, t, g2, ls, la, lb, lread) = (*g1, *t, *g2, *ls, *la, *lb, *lread);
@@ -744,61 +796,161 @@ fn build(p: &P, env: &Env) -> AnyView {
 
 // ------------------------------------------------------------------ build_response
 
+/// per-request configuration handed to `stream_builder` (a plain `fn`) through context
+#[derive(Clone)]
+struct ReqCfg {
+    /// 0 in-order streaming, 1 out-of-order streaming, 2 async rendering (the whole app is awaited, then the
+    /// hydration chunks are requested: `leptos_axum::render_app_async`, `SsrMode::Async`)
+    mode: u8,
+    tail: Arc<Mutex<std::collections::VecDeque<TailStep>>>,
+}
+
 fn stream_builder(
     app: AnyView,
     chunks: BoxedFnOnce<PinnedStream<String>>,
-    ooo: bool,
+    _supports_ooo: bool,
 ) -> PinnedFuture<PinnedStream<String>> {
-    // what the axum/actix integrations pass to build_response (integrations/axum/src/lib.rs
-    // render_app_to_stream_with_context_and_replace_blocks), the flag selecting the stream kind
+    // what the axum/actix integrations pass to build_response: integrations/axum/src/lib.rs
+    // `render_app_to_stream_with_context_and_replace_blocks` (streaming) and `async_stream_builder` (async mode)
+    let cfg = use_context::<ReqCfg>().expect("ReqCfg");
+    // a user stream chained behind the app and its hydration chunks (`X` nodes): polled through the response
+    // body's `Sandboxed::poll_next`, by code that does not enter an owner by itself
+    let tail = cfg.tail.clone();
+    let user_tail = futures::stream::poll_fn(move |cx| {
+        let mut steps = tail.lock().unwrap();
+        let Some(st) = steps.front_mut() else { return Poll::Ready(None) };
+        if let Some(rx) = st.rx.as_mut() {
+            if Pin::new(rx).poll(cx).is_pending() {
+                return Poll::Pending;
+            }
+        }
+        let st = steps.pop_front().unwrap();
+        drop(steps);
+        let seen = match st.owner.as_ref() {
+            Some(o) => o.with(|| touch_arena(&st.env, st.leaf, st.handle, true)),
+            None => touch_arena(&st.env, st.leaf, st.handle, false),
+        };
+        Poll::Ready(Some(format!("[X{}:{seen}]", st.leaf)))
+    });
     Box::pin(async move {
-        let app = if ooo { app.to_html_stream_out_of_order() } else { app.to_html_stream_in_order() };
-        Box::pin(app.chain(chunks())) as PinnedStream<String>
+        match cfg.mode {
+            2 => {
+                let app = app.to_html_stream_in_order().collect::<String>().await;
+                let chunks = chunks();
+                Box::pin(futures::stream::once(async move { app }).chain(chunks).chain(user_tail)) as PinnedStream<String>
+            }
+            1 => Box::pin(app.to_html_stream_out_of_order().chain(chunks()).chain(user_tail)) as PinnedStream<String>,
+            _ => Box::pin(app.to_html_stream_in_order().chain(chunks()).chain(user_tail)) as PinnedStream<String>,
+        }
     })
 }
 
-#[cfg(feature = "sandbox")]
-use leptos_integration_utils::build_response;
+/// the response type of this "integration"
+struct HxResponse(PinnedStream<String>);
 
-/// integrations/utils/src/lib.rs `build_response`, reproduced for the configuration without
-/// `sandboxed-arenas` (`Sandboxed` does not exist there; everything else line by line; no nonce feature here).
-#[cfg(not(feature = "sandbox"))]
-fn build_response<IV>(
-    app_fn: impl FnOnce() -> IV + Send + 'static,
-    additional_context: impl FnOnce() + Send + 'static,
-    stream_builder: fn(IV, BoxedFnOnce<PinnedStream<String>>, bool) -> PinnedFuture<PinnedStream<String>>,
-    is_islands_router_navigation: bool,
-) -> (Owner, PinnedFuture<PinnedStream<String>>)
-where
-    IV: IntoView + 'static,
-{
-    let shared_context = Arc::new(SsrSharedContext::new()) as Arc<dyn SharedContext + Send + Sync>;
-    let owner = Owner::new_root(Some(Arc::clone(&shared_context)));
-    let stream = Box::pin({
-        let owner = owner.clone();
-        async move {
-            let stream = owner.with(|| {
-                additional_context();
-                let app = app_fn();
-                let nonce = String::new();
-                let shared_context = Owner::current_shared_context().unwrap();
-                let chunks = Box::new({
-                    let shared_context = shared_context.clone();
-                    move || {
-                        Box::pin(
-                            shared_context
-                                .pending_data()
-                                .unwrap()
-                                .map(move |chunk| format!("<script{nonce}>{chunk}</script>")),
-                        ) as Pin<Box<dyn Stream<Item = String> + Send>>
-                    }
-                });
-                stream_builder(app, chunks, is_islands_router_navigation)
-            });
-            stream.await
+/// bin `c20`: the REAL response assembly, `leptos_integration_utils::ExtendResponse::from_app` (which calls the real
+/// `build_response`, awaits deferred (blocking) resources, lets leptos_meta inject into the first chunk, awaits the
+/// first chunk OUTSIDE any `Sandboxed`, then wraps the rest of the body, ending with `owner.unset()`, in `Sandboxed`)
+#[cfg(feature = "sandbox")]
+mod assembly {
+    use super::*;
+    use leptos_integration_utils::ExtendResponse;
+
+    impl ExtendResponse for HxResponse {
+        type ResponseOptions = ();
+        fn from_stream(stream: impl Stream<Item = String> + Send + 'static) -> Self {
+            HxResponse(Box::pin(stream))
         }
-    });
-    (owner, stream)
+        fn extend_response(&mut self, _: &()) {}
+        fn set_default_content_type(&mut self, _: &str) {}
+    }
+
+    pub fn assemble(
+        app_fn: impl FnOnce() -> AnyView + Send + 'static,
+        additional_context: impl FnOnce() + Send + 'static,
+    ) -> PinnedFuture<HxResponse> {
+        let (_meta, meta_output) = leptos_meta::ServerMetaContext::new();
+        Box::pin(HxResponse::from_app(app_fn, meta_output, additional_context, (), stream_builder, true))
+    }
+}
+
+/// bin `c20g` (global arena): `leptos_integration_utils` cannot be linked without turning `sandboxed-arenas` on for
+/// the whole build, so `build_response` and `from_app` (integrations/utils/src/lib.rs) are reproduced line by line,
+/// minus `Sandboxed` (does not exist here), the nonce and the leptos_meta injection (a no-op without meta tags)
+#[cfg(not(feature = "sandbox"))]
+mod assembly {
+    use super::*;
+
+    fn build_response<IV>(
+        app_fn: impl FnOnce() -> IV + Send + 'static,
+        additional_context: impl FnOnce() + Send + 'static,
+        stream_builder: fn(IV, BoxedFnOnce<PinnedStream<String>>, bool) -> PinnedFuture<PinnedStream<String>>,
+        is_islands_router_navigation: bool,
+    ) -> (Owner, PinnedFuture<PinnedStream<String>>)
+    where
+        IV: IntoView + 'static,
+    {
+        let shared_context = Arc::new(SsrSharedContext::new()) as Arc<dyn SharedContext + Send + Sync>;
+        let owner = Owner::new_root(Some(Arc::clone(&shared_context)));
+        let stream = Box::pin({
+            let owner = owner.clone();
+            async move {
+                let stream = owner.with(|| {
+                    additional_context();
+                    let app = app_fn();
+                    let nonce = String::new();
+                    let shared_context = Owner::current_shared_context().unwrap();
+                    let chunks = Box::new({
+                        let shared_context = shared_context.clone();
+                        move || {
+                            Box::pin(
+                                shared_context
+                                    .pending_data()
+                                    .unwrap()
+                                    .map(move |chunk| format!("<script{nonce}>{chunk}</script>")),
+                            ) as Pin<Box<dyn Stream<Item = String> + Send>>
+                        }
+                    });
+                    stream_builder(app, chunks, is_islands_router_navigation)
+                });
+                stream.await
+            }
+        });
+        (owner, stream)
+    }
+
+    pub fn assemble(
+        app_fn: impl FnOnce() -> AnyView + Send + 'static,
+        additional_context: impl FnOnce() + Send + 'static,
+    ) -> PinnedFuture<HxResponse> {
+        Box::pin(async move {
+            let (owner, stream) = build_response(app_fn, additional_context, stream_builder, true);
+            let sc = owner.shared_context().unwrap();
+            let stream = stream.await.ready_chunks(32).map(|n| n.join(""));
+            while let Some(pending) = sc.await_deferred() {
+                pending.await;
+            }
+            let mut stream = Box::pin(stream.then({
+                let sc = Arc::clone(&sc);
+                move |chunk| {
+                    let sc = Arc::clone(&sc);
+                    async move {
+                        while let Some(pending) = sc.await_deferred() {
+                            pending.await;
+                        }
+                        chunk
+                    }
+                }
+            }));
+            let first_chunk = stream.next().await.unwrap_or_default();
+            HxResponse(Box::pin(futures::stream::once(async move { first_chunk }).chain(stream).chain(
+                futures::stream::once(async move {
+                    owner.unset();
+                    Default::default()
+                }),
+            )))
+        })
+    }
 }
 
 #[allow(dead_code)]
@@ -819,9 +971,14 @@ enum Act {
 
 struct Req {
     me: u32,
-    ooo: bool,
+    /// 0 in-order, 1 out-of-order, 2 async rendering
+    ooo: u8,
     prog: P,
     gates: Vec<u32>,
+    /// the response future (`from_app`): polled by hand, NOT inside `Sandboxed`, until it yields the body
+    assembling: Option<PinnedFuture<HxResponse>>,
+    /// futures the handler side polls itself, outside any `Sandboxed` (`K` nodes)
+    side: Arc<Mutex<Vec<Pin<Box<dyn Future<Output = ()> + Send>>>>>,
     started: bool,
     dropped: bool,
     aborted: bool,
@@ -837,7 +994,7 @@ struct Req {
 }
 
 impl Req {
-    fn new(me: u32, ooo: bool, prog: P) -> Self {
+    fn new(me: u32, ooo: u8, prog: P) -> Self {
         let mut gates = vec![];
         gates_of(&prog, &mut gates);
         Req {
@@ -845,6 +1002,8 @@ impl Req {
             ooo,
             prog,
             gates,
+            assembling: None,
+            side: Default::default(),
             started: false,
             dropped: false,
             aborted: false,
@@ -901,55 +1060,28 @@ impl World {
             let prog = q.prog.clone();
             let tail: Arc<Mutex<std::collections::VecDeque<TailStep>>> = Default::default();
             let tail2 = tail.clone();
+            let side = q.side.clone();
             let app_fn = move || {
+                // every response carries a marker in its hydration data: a resource that is ready at once
+                let _hyd = Resource::new(|| (), move |_| async move { format!("HYD{me}") });
                 let sig = RwSignal::new(10 + me);
-                let env = Env { me, sig, gates, tail: tail2 };
+                let env = Env { me, sig, gates, tail: tail2, side };
                 build(&prog, &env)
             };
-            let (owner, mut fut) = build_response(
-                app_fn,
-                move || {
-                    provide_context(Tag { req: me, scope: 0 });
-                    // what the integrations' `provide_contexts` gives the router
-                    provide_context(RequestUrl::new("http://leptos.dev/"));
-                },
-                stream_builder,
-                q.ooo,
-            );
+            let cfg = ReqCfg { mode: q.ooo, tail };
+            let mut fut = assembly::assemble(app_fn, move || {
+                provide_context(Tag { req: me, scope: 0 });
+                provide_context(cfg);
+                // what the integrations' `provide_contexts` gives the router
+                provide_context(RequestUrl::new("http://leptos.dev/"));
+            });
+            // the handler's first poll: `Owner::new_root`, the component bodies, the stream builder
             let w2 = sched::noop_waker();
             let mut cx = Context::from_waker(&w2);
-            let stream = match fut.as_mut().poll(&mut cx) {
-                Poll::Ready(s) => s,
-                Poll::Pending => panic!("build_response future pending"),
-            };
-            // integrations/utils `ExtendResponse::from_app`, reproduced: the response body is the stream
-            // followed by one element that drops the root owner, all inside `Sandboxed` (from_app itself
-            // needs a ServerMetaContextOutput and awaits the first chunk; not linked here)
-            // a user stream chained behind the app (`X` nodes): polled through the SAME `Sandboxed` wrapper's
-            // `poll_next`, by code that does not enter an owner by itself
-            let user_tail = futures::stream::poll_fn(move |cx| {
-                let mut steps = tail.lock().unwrap();
-                let Some(st) = steps.front_mut() else { return Poll::Ready(None) };
-                if let Some(rx) = st.rx.as_mut() {
-                    if Pin::new(rx).poll(cx).is_pending() {
-                        return Poll::Pending;
-                    }
-                }
-                let st = steps.pop_front().unwrap();
-                drop(steps);
-                let seen = match st.owner.as_ref() {
-                    Some(o) => o.with(|| touch_arena(&st.env, st.leaf, st.handle, true)),
-                    None => touch_arena(&st.env, st.leaf, st.handle, false),
-                };
-                Poll::Ready(Some(format!("[X{}:{seen}]", st.leaf)))
-            });
-            let body = stream.chain(user_tail).chain(futures::stream::once(async move {
-                owner.unset();
-                String::new()
-            }));
-            #[cfg(feature = "sandbox")]
-            let body = leptos::reactive::owner::Sandboxed::new(body);
-            q.stream = Some(Box::pin(body));
+            match fut.as_mut().poll(&mut cx) {
+                Poll::Ready(resp) => q.stream = Some(resp.0),
+                Poll::Pending => q.assembling = Some(fut),
+            }
             // created while this request's arena is current (just set by the `Sandboxed` build_response future)
             #[cfg(feature = "sandbox")]
             {
@@ -978,9 +1110,23 @@ impl World {
             if q.stream_done {
                 return;
             }
-            let Some(mut s) = q.stream.take() else { return };
             let w2 = sched::noop_waker();
             let mut cx = Context::from_waker(&w2);
+            // the handler side polls its own futures first: no `Sandboxed`, no owner entered by the poller
+            let mut side = std::mem::take(&mut *q.side.lock().unwrap());
+            side.retain_mut(|f| f.as_mut().poll(&mut cx).is_pending());
+            q.side.lock().unwrap().extend(side);
+            // then the response future (`from_app`), also outside `Sandboxed`, until the body exists
+            if let Some(mut fut) = q.assembling.take() {
+                match fut.as_mut().poll(&mut cx) {
+                    Poll::Ready(resp) => q.stream = Some(resp.0),
+                    Poll::Pending => {
+                        q.assembling = Some(fut);
+                        return;
+                    }
+                }
+            }
+            let Some(mut s) = q.stream.take() else { return };
             let mut pend = 0;
             let mut done = false;
             for _ in 0..10_000 {
@@ -1023,12 +1169,14 @@ impl World {
     /// everything r can do by itself with the gates fired so far: its ready tasks, then its stream, to a fixpoint
     fn progress(&mut self, r: usize) {
         for _ in 0..64 {
-            let n = self.run_own_tasks(r);
-            let before = self.reqs[r].html.len();
+            let state = |q: &Req| (q.html.len(), q.assembling.is_some(), q.side.lock().unwrap().len());
+            let before = state(&self.reqs[r]);
+            // the handler side first (nothing of r that is `Sandboxed` has run yet in this round)
             self.ps_inner(r);
+            let n = self.run_own_tasks(r);
             let rd = sched::ready();
             let more = rd.iter().any(|id| self.reqs[r].tasks.contains(id));
-            if self.reqs[r].stream_done || (n == 0 && !more && self.reqs[r].html.len() == before) {
+            if self.reqs[r].stream_done || (n == 0 && !more && state(&self.reqs[r]) == before) {
                 break;
             }
         }
@@ -1085,6 +1233,8 @@ impl World {
         self.guarded(r, |w| {
             let q = &mut w.reqs[r];
             q.stream = None;
+            q.assembling = None;
+            q.side.lock().unwrap().clear();
             q.txs.clear();
         });
         // tasks woken by the disposal (channel closed) finish here
@@ -1109,6 +1259,8 @@ impl World {
             }
             let q = &mut w.reqs[r];
             q.stream = None;
+            q.assembling = None;
+            q.side.lock().unwrap().clear();
         });
         for g in self.reqs[r].gates.clone() {
             if !self.reqs[r].fired.contains(&g) {
@@ -1130,7 +1282,7 @@ impl World {
     }
 }
 
-fn solo(me: u32, ooo: bool, prog: &P, acts: &[Act]) -> (String, Vec<Rec>, bool, bool) {
+fn solo(me: u32, ooo: u8, prog: &P, acts: &[Act]) -> (String, Vec<Rec>, bool, bool) {
     sched::reset();
     LOG.lock().unwrap().clear();
     let mut w = World::new();
@@ -1158,7 +1310,23 @@ fn show_tag(t: &Option<(u32, u32)>) -> String {
     t.map(|t| format!("{}.{}", t.0, t.1)).unwrap_or("-".into())
 }
 
-fn observation(r: u32, log: &[Rec]) -> String {
+/// whose hydration data the response carries: every request serialises a marker resource `HYD<request>`
+fn hydration_of(html: &str) -> String {
+    let mut set = BTreeSet::new();
+    let mut rest = html;
+    while let Some(i) = rest.find("HYD") {
+        rest = &rest[i + 3..];
+        let n: String = rest.chars().take_while(|c| c.is_ascii_digit()).collect();
+        set.insert(n);
+    }
+    if set.is_empty() {
+        "h=-".into()
+    } else {
+        format!("h={}", set.into_iter().collect::<Vec<_>>().join(","))
+    }
+}
+
+fn observation(r: u32, log: &[Rec], hyd: &str) -> String {
     let mut m: BTreeMap<u32, BTreeSet<String>> = BTreeMap::new();
     for x in log.iter().filter(|x| x.me == r) {
         let seen = if let Some(v) = &x.arena_read {
@@ -1172,12 +1340,13 @@ fn observation(r: u32, log: &[Rec]) -> String {
         m.entry(x.leaf).or_default().insert(seen);
     }
     format!(
-        "r{}:[{}]",
+        "r{}:[{}]{}",
         r,
         m.iter()
             .map(|(l, ts)| format!("{}={}", l, ts.iter().cloned().collect::<Vec<_>>().join(",")))
             .collect::<Vec<_>>()
-            .join(";")
+            .join(";"),
+        hyd
     )
 }
 
@@ -1247,6 +1416,9 @@ fn prog_tags(p: &P, under_async: bool, out: &mut BTreeSet<&'static str>) {
         P::Y(..) => {
             out.insert("sandboxed-task-body");
         }
+        P::K(..) => {
+            out.insert("handler-side-future");
+        }
         P::Z(..) => {
             out.insert("resource-rerun");
         }
@@ -1263,7 +1435,7 @@ fn prog_tags(p: &P, under_async: bool, out: &mut BTreeSet<&'static str>) {
 fn exposed(p: &P, late: bool, covered: bool) -> bool {
     match p {
         P::L(_) | P::F(..) => late && !covered,
-        P::E(_) | P::C(_) | P::R(..) | P::O(..) | P::T(..) | P::D(..) | P::I(_) | P::A(..) | P::X(..) | P::Y(..) | P::Z(..) => {
+        P::E(_) | P::C(_) | P::R(..) | P::O(..) | P::T(..) | P::D(..) | P::I(_) | P::A(..) | P::X(..) | P::Y(..) | P::Z(..) | P::K(..) => {
             false
         }
         P::V(_, c) | P::W(_, c) => exposed(c, late, true),
@@ -1278,7 +1450,7 @@ fn exposed(p: &P, late: bool, covered: bool) -> bool {
 fn late_kind(p: &P, late: bool, out: &mut BTreeSet<&'static str>) {
     match p {
         P::L(_) | P::F(..) | P::E(_) | P::C(_) | P::I(_) | P::X(..) => {}
-        P::R(..) | P::O(..) | P::T(..) | P::D(..) | P::A(..) | P::Y(..) | P::Z(..) => {
+        P::R(..) | P::O(..) | P::T(..) | P::D(..) | P::A(..) | P::Y(..) | P::Z(..) | P::K(..) => {
             if late {
                 out.insert("late-resource");
             }
@@ -1326,11 +1498,17 @@ fn op(c: &mut Case, line: &str) -> String {
     match w.as_slice() {
         ["req", r, mode, p] => {
             let Ok(r) = r.parse::<usize>() else { return "bad-op".into() };
-            if r != c.w.reqs.len() || r > 2 || !(*mode == "io" || *mode == "ooo") {
+            let m = match *mode {
+                "io" => 0u8,
+                "ooo" => 1,
+                "async" => 2,
+                _ => return "bad-op".into(),
+            };
+            if r != c.w.reqs.len() || r > 2 {
                 return "bad-op".into();
             }
             let Some(p) = parse_prog(p) else { return "bad-op".into() };
-            c.w.reqs.push(Req::new(r as u32, *mode == "ooo", p));
+            c.w.reqs.push(Req::new(r as u32, m, p));
             "ok".into()
         }
         ["start", r] => {
@@ -1394,7 +1572,7 @@ fn op(c: &mut Case, line: &str) -> String {
             if c.w.panicked {
                 bad.push("panic".to_string());
             }
-            let info: Vec<(bool, P, Vec<Act>, String, bool, bool, bool)> = c
+            let info: Vec<(u8, P, Vec<Act>, String, bool, bool, bool)> = c
                 .w
                 .reqs
                 .iter_mut()
@@ -1407,7 +1585,7 @@ fn op(c: &mut Case, line: &str) -> String {
                     continue;
                 }
                 // an aborted response is truncated wherever the abort fell: only the oracle looks at it
-                obs.push(if *aborted { format!("r{r}:aborted") } else { observation(r as u32, &log) });
+                obs.push(if *aborted { format!("r{r}:aborted") } else { observation(r as u32, &log, &hydration_of(html)) });
                 let (shtml, slog, sdone, spanic) = solo(r as u32, *ooo, prog, acts);
                 let mine: Vec<Rec> = log.iter().filter(|x| x.me == r as u32).cloned().collect();
                 let alone: Vec<Rec> = slog;
@@ -1460,7 +1638,11 @@ fn main() {
                             if exposed(&p, false, false) {
                                 t.insert("exposed");
                             }
-                            t.insert(if *mode == "ooo" { "ooo" } else { "in-order" });
+                            t.insert(match *mode {
+                                "ooo" => "ooo",
+                                "async" => "async-mode",
+                                _ => "in-order",
+                            });
                         }
                     }
                     ["drop", ..] => {
@@ -1544,7 +1726,9 @@ impl G {
         match self.rng.below(18) {
             // bodies behind the two `Sandboxed` entry points that touch arena handles, with/without an owner
             12..=13 => P::X(self.rng.below(2) as u32, self.gate(), self.leaf()),
-            14 => P::Y(self.rng.below(2) as u32, self.gate(), self.leaf()),
+            14 if self.rng.chance(1, 2) => P::Y(self.rng.below(2) as u32, self.gate(), self.leaf()),
+            // a future the handler side polls itself, outside `Sandboxed` (own root possibly still current)
+            14 => P::K(self.rng.below(2) as u32, self.gate(), self.leaf(), self.leaf()),
             // resources / async deriveds whose fetcher re-runs
             15..=17 => {
                 let kind = self.rng.below(4) as u32;
@@ -1656,7 +1840,7 @@ fn gen_case(rng: &mut Rng, name: &str, out: &mut String, tier: &str) {
         if same {
             p = first.get_or_insert(p).clone();
         }
-        let mode = if rng.chance(1, 2) { "io" } else { "ooo" };
+        let mode = *rng.pick(&["io", "io", "ooo", "ooo", "async"]);
         out.push_str(&format!("req {r} {mode} {}\n", show_prog(&p)));
         let mut gs = vec![];
         gates_of(&p, &mut gs);
@@ -1817,15 +2001,21 @@ fn gen_exhaustive(out: &mut String, tier: &str) -> usize {
     // other's progress: all 70 interleavings of [start r, ps r, fire r 1, ps r] for r = 0, 1; pages with bodies that
     // touch arena handles behind `Sandboxed::poll_next` / `Sandboxed::poll` without entering an owner, and with
     // resources whose fetcher re-runs while the other request's owner is the thread's current one
+    // (request 0's mode, page): with `io` and a page that starts with an async chunk, or with `async`, the response
+    // future (`from_app`) is still waiting for its first chunk — polled OUTSIDE `Sandboxed`, with the request's root
+    // possibly still the thread's current owner — while the other request runs
     let pages = [
-        "Q(E1,X0.1.2,X0.2.3)",
-        "Q(U(Y0.1.2),X1.2.3,X0.3.4)",
-        "U(Z0.2.3.1.4.5.6.7)",
-        "Q(U(Z11.1.2.3.4.5.6.7),X0.2.8)",
-        "U(Z20.2.3.1.4.5.6.7)",
+        ("io", "Q(E1,X0.1.2,X0.2.3)"),
+        ("io", "Q(U(Y0.1.2),X1.2.3,X0.3.4)"),
+        ("io", "U(Z0.2.3.1.4.5.6.7)"),
+        ("io", "Q(S1.2.3(L4),K0.1.5.6,E7)"),
+        ("async", "Q(L1,U(R1.2.3),K1.1.4.5)"),
+        ("io", "Q(U(Z11.1.2.3.4.5.6.7),X0.2.8)"),
+        ("async", "Q(O2.1.2.3,S1.4.5(L6))"),
+        ("io", "U(Z20.2.3.1.4.5.6.7)"),
     ];
-    let n_pages = if tier == "thorough" { pages.len() } else { 4 };
-    for (t, page) in pages.iter().take(n_pages).enumerate() {
+    let n_pages = if tier == "thorough" { pages.len() } else { 5 };
+    for (t, (m0, page)) in pages.iter().take(n_pages).enumerate() {
         for mask in 0u32..256 {
             if mask.count_ones() != 4 {
                 continue;
@@ -1833,7 +2023,7 @@ fn gen_exhaustive(out: &mut String, tier: &str) -> usize {
             let seq = |r: usize| [format!("start {r}"), format!("ps {r}"), format!("fire {r} 1"), format!("ps {r}")];
             let (a, b) = (seq(0), seq(1));
             let (mut ia, mut ib) = (0, 0);
-            out.push_str(&format!("case z{t}-{count}\nreq 0 io {page}\nreq 1 {} {page}\n", if mask % 2 == 0 { "io" } else { "ooo" }));
+            out.push_str(&format!("case z{t}-{count}\nreq 0 {m0} {page}\nreq 1 {} {page}\n", ["io", "ooo", "async"][mask as usize % 3]));
             for slot in 0..8 {
                 if mask >> slot & 1 == 1 {
                     out.push_str(&a[ia]);
